@@ -29,6 +29,11 @@ fn initial(rng: &mut Rng) -> String {
         let at = ls[rng.usize(ls.len())];
         t.insert_str(at, *rng.pick(&SALT));
     }
+    // a tenth of the texts start with a byte order mark, as files saved by some Windows editors do: it is one UTF-16 unit of
+    // line 0 in the editor's text, so every position on line 0 counts it
+    if rng.chance(1, 10) {
+        t.insert(0, '\u{feff}');
+    }
     t
 }
 
@@ -489,6 +494,9 @@ pub fn run(sh: &mut Shard) {
                 sh.count("watched_file_events_for_open_documents", st.watch_events);
                 sh.count("semantic_token_range_answers_compared_with_full", st.range_token_answers);
                 sh.count("histories_ok", 1);
+                if s0.starts_with('\u{feff}') {
+                    sh.count("histories_on_texts_starting_with_a_byte_order_mark", 1);
+                }
                 if st.non_ascii_edit {
                     sh.count("histories_editing_after_non_ascii", 1);
                 }
